@@ -449,33 +449,37 @@ Qed.
 Lemma fresh_id_grows st : grows st (snd (fresh_id st)).
 Proof. unfold grows, fresh_id; simpl. split; [reflexivity|]. split; [lia | apply heap_ext_refl]. Qed.
 
-Lemma eval_atom_grows st a v s1 : eval_atom cfg_cur st a = Some (v, s1) -> grows st s1.
+Section AnyCfg.
+  Variable cf : cfg.
+  Hypothesis Hac : c_atom_copy cf = false.
+
+Lemma eval_atom_grows st a v s1 : eval_atom cf st a = Some (v, s1) -> grows st s1.
 Proof.
   destruct a as [x|r c d|x]; cbn.
   - intros H. inversion H; subst. apply (alloc_grows (DNum x) st).
   - intros H. inversion H; subst. apply (alloc_grows (DMat r c d) st).
-  - destruct (find x (names st)) as [[[mu w] b]|]; [|discriminate]. intros H. inversion H; subst. apply grows_refl.
+  - destruct (find x (names st)) as [[[mu w] b]|]; [|discriminate]. rewrite Hac. intros H. inversion H; subst. apply grows_refl.
 Qed.
 
-Lemma eval_atoms_grows l : forall st vs s1, eval_atoms cfg_cur st l = Some (vs, s1) -> grows st s1.
+Lemma eval_atoms_grows l : forall st vs s1, eval_atoms cf st l = Some (vs, s1) -> grows st s1.
 Proof.
   induction l as [|a l IH]; intros st vs s1; cbn [eval_atoms].
   - intros H. inversion H; subst. apply grows_refl.
-  - destruct (eval_atom cfg_cur st a) as [[v s0]|] eqn:Ea; [|discriminate].
-    destruct (eval_atoms cfg_cur s0 l) as [[ws s2]|] eqn:El; [|discriminate].
+  - destruct (eval_atom cf st a) as [[v s0]|] eqn:Ea; [|discriminate].
+    destruct (eval_atoms cf s0 l) as [[ws s2]|] eqn:El; [|discriminate].
     intros H. inversion H; subst. eapply grows_trans; [eapply eval_atom_grows; eassumption | eapply IH; eassumption].
 Qed.
 
-Lemma eval_expr_grows st e v s1 b : eval_expr cfg_cur st e = Some (v, s1, b) -> grows st s1.
+Lemma eval_expr_grows st e v s1 b : eval_expr cf st e = Some (v, s1, b) -> grows st s1.
 Proof.
   destruct e as [x|r c d|l|cols|l|l|x]; cbn [eval_expr].
   - intros H. inversion H; subst. apply (alloc_grows (DNum x) st).
   - intros H. inversion H; subst. apply (alloc_grows (DMat r c d) st).
   - intros H. inversion H; subst. apply (fresh_id_grows st).
   - intros H. inversion H; subst. apply (alloc_grows (DTab cols) st).
-  - cbn. destruct (eval_atoms cfg_cur _ l) as [[vs s2]|] eqn:E; [|discriminate].
+  - cbn. destruct (eval_atoms cf _ l) as [[vs s2]|] eqn:E; [|discriminate].
     intros H. inversion H; subst. eapply grows_trans; [apply (fresh_id_grows st) | eapply eval_atoms_grows; exact E].
-  - cbn. destruct (eval_atoms cfg_cur _ (map snd l)) as [[vs s2]|] eqn:E; [|discriminate].
+  - cbn. destruct (eval_atoms cf _ (map snd l)) as [[vs s2]|] eqn:E; [|discriminate].
     intros H. inversion H; subst. eapply grows_trans; [apply (fresh_id_grows st) | eapply eval_atoms_grows; exact E].
   - destruct (find x (names st)) as [[[mu w] b']|]; [|discriminate]. intros H. inversion H; subst. apply grows_refl.
 Qed.
@@ -498,7 +502,7 @@ Lemma get_alloc d st : get (next st) (cells (snd (alloc d st))) = d.
 Proof. unfold alloc, get; cbn. rewrite Nat.eqb_refl. reflexivity. Qed.
 
 Lemma eval_atom_closed T st a v s1 :
-  closed_atom a -> eval_atom cfg_cur st a = Some (v, s1) ->
+  closed_atom a -> eval_atom cf st a = Some (v, s1) ->
   new_in st s1 (cells_of v) /\ snap (cells s1) v = adv a /\ aeval T a = Some (adv a).
 Proof.
   destruct a as [x|r c d|x]; cbn; intros Hc H; try contradiction; inversion H; subst; simpl; unfold new_in, get; simpl;
@@ -506,15 +510,15 @@ Proof.
 Qed.
 
 Lemma eval_atoms_closed T l : forall st vs s1,
-  Forall closed_atom l -> eval_atoms cfg_cur st l = Some (vs, s1) ->
+  Forall closed_atom l -> eval_atoms cf st l = Some (vs, s1) ->
   new_in st s1 (flat_map cells_of vs) /\ map (snap (cells s1)) vs = map adv l /\
   map_opt (aeval T) l = Some (map adv l) /\ List.length vs = List.length l.
 Proof.
   induction l as [|a l IH]; intros st vs s1 Hc; cbn [eval_atoms].
   - intros H. inversion H; subst. cbn. split; [intros c0 []|]. repeat split.
   - inversion Hc; subst.
-    destruct (eval_atom cfg_cur st a) as [[v s0]|] eqn:Ea; [|discriminate].
-    destruct (eval_atoms cfg_cur s0 l) as [[ws s2]|] eqn:El; [|discriminate].
+    destruct (eval_atom cf st a) as [[v s0]|] eqn:Ea; [|discriminate].
+    destruct (eval_atoms cf s0 l) as [[ws s2]|] eqn:El; [|discriminate].
     intros H. inversion H; subst.
     pose proof (eval_atom_grows _ _ _ _ Ea) as [_ [Hn0 _]].
     pose proof (eval_atoms_grows _ _ _ _ El) as [_ [Hn1 Hx1]].
@@ -554,7 +558,7 @@ Proof.
 Qed.
 
 Lemma eval_expr_closed T st e v s1 b :
-  closed_expr e -> eval_expr cfg_cur st e = Some (v, s1, b) ->
+  closed_expr e -> eval_expr cf st e = Some (v, s1, b) ->
   new_in st s1 (cells_of v) /\ seval T e = Some (snap (cells s1) v) /\ detach v = v /\ deref1 v = v.
 Proof.
   destruct e as [x|r c d|l|cols|l|l|x]; cbn [eval_expr closed_expr]; intros Hc; try contradiction.
@@ -565,13 +569,13 @@ Proof.
   - intros H. inversion H; subst. unfold new_in; simpl. split; [intros c0 []|]. repeat split.
   - intros H. inversion H; subst. simpl; unfold new_in, get; simpl. rewrite Nat.eqb_refl.
     split; [intros c0 [<-|[]]; lia|]. repeat split.
-  - cbn. destruct (eval_atoms cfg_cur _ l) as [[vs s2]|] eqn:E; [|discriminate].
+  - cbn. destruct (eval_atoms cf _ l) as [[vs s2]|] eqn:E; [|discriminate].
     intros H. inversion H; subst.
     destruct (eval_atoms_closed T _ _ _ _ Hc E) as [Hnew [Hs [Ha _]]].
     split; [|split; [|split; reflexivity]].
     + intros c Hin. cbn [cells_of] in Hin. apply Hnew in Hin. simpl in Hin. lia.
     + cbn [seval snap]. rewrite Ha, Hs. reflexivity.
-  - cbn. destruct (eval_atoms cfg_cur _ (map snd l)) as [[vs s2]|] eqn:E; [|discriminate].
+  - cbn. destruct (eval_atoms cf _ (map snd l)) as [[vs s2]|] eqn:E; [|discriminate].
     intros H. inversion H; subst.
     destruct (eval_atoms_closed T _ _ _ _ Hc E) as [Hnew [Hs [Ha Hl]]].
     rewrite map_length in Hl.
@@ -582,6 +586,8 @@ Proof.
       rewrite <- combine_fst_snd, <- Hs, <- combine_map_snd.
       apply map_ext. intros [f w]. reflexivity.
 Qed.
+
+End AnyCfg.
 
 (* the invariant of class-free runs: every name owns the cells its value reaches *)
 Record Inv (st : store) : Prop := {
@@ -666,14 +672,15 @@ Proof.
     intros y mu v b c Hin Hc. specialize (H2 _ _ _ _ _ Hin Hc). lia.
 Qed.
 
-Lemma with_src_ok st s x e k :
+Lemma with_src_ok cf st s x e k :
+  c_atom_copy cf = false ->
   Inv st -> assign_target s = Some x -> (forall src, kernel_ok (fun cs sink => k cs sink src)) ->
-  is_partial (with_src cfg_cur st e (fun src s1 => assign_with st s1 x (fun cs sink => k cs sink src))) = false ->
-  let r := with_src cfg_cur st e (fun src s1 => assign_with st s1 x (fun cs sink => k cs sink src)) in
+  is_partial (with_src cf st e (fun src s1 => assign_with st s1 x (fun cs sink => k cs sink src))) = false ->
+  let r := with_src cf st e (fun src s1 => assign_with st s1 x (fun cs sink => k cs sink src)) in
   step_ok (snap_tab st) s (snd (fst r)) (snap_tab (fst (fst r))) /\ Inv (fst (fst r)).
 Proof.
-  intros HI Hs Hk Hp. unfold with_src in *.
-  destruct (eval_expr cfg_cur st e) as [[[src s1] b]|] eqn:Ee; cbn [fst snd]; [|split; [apply refused_ok | exact HI]].
+  intros Hac HI Hs Hk Hp. unfold with_src in *.
+  destruct (eval_expr cf st e) as [[[src s1] b]|] eqn:Ee; cbn [fst snd]; [|split; [apply refused_ok | exact HI]].
   apply assign_with_ok; try assumption; [eapply eval_expr_grows; eassumption | apply Hk].
 Qed.
 
@@ -715,9 +722,9 @@ Proof.
   - intros H Hc. apply in_or_app. right. eapply IH; eassumption.
 Qed.
 
-Lemma k_field_ok f src : kernel_ok (fun cs sink => k_field cfg_cur cs sink f src).
+Lemma k_field_ok cf f src : kernel_ok (fun cs sink => k_field cf cs sink f src).
 Proof.
-  intros cs sink a cs' Hd H. unfold k_field in H. rewrite Hd in H. cbn [c_col_checked cfg_cur] in H.
+  intros cs sink a cs' Hd H. unfold k_field in H. rewrite Hd in H.
   destruct sink as [c|i l|i l|i fs|w]; try discriminate.
   - repeat dmh; inversion H; subst; (split; [cbn; auto | eexists; reflexivity]).
   - destruct (find f fs) as [[a0| | | |]|] eqn:Ef; try discriminate.
@@ -741,6 +748,49 @@ Proof.
   inversion Hnd; subst. constructor.
   - intros Hin. apply in_app_or in Hin as [Hin|[Hin|[]]]; [contradiction | subst; apply Hx; auto].
   - apply IH; [assumption | intros Hin; apply Hx; auto].
+Qed.
+
+(* binding x to a value made of new cells only *)
+Lemma add_fresh_ok st s2 mu x v b :
+  Inv st -> grows st s2 -> new_in st s2 (cells_of v) -> deref1 v = v -> find x (names st) = None ->
+  Inv (add_name x (mu, v, b) s2) /\
+  find x (snap_tab (add_name x (mu, v, b) s2)) = Some (mu, snap (cells s2) v) /\
+  (forall n, n <> x -> find n (snap_tab (add_name x (mu, v, b) s2)) = find n (snap_tab st)).
+Proof.
+  intros HI [Hn [Hlt Hx]] Hnew Hdr Ef. split; [|split].
+  - destruct HI as [H1 H2 H3 H4]. unfold add_name. constructor; cbn [names next cells]; rewrite Hn.
+    + unfold keys. rewrite map_app. cbn. apply NoDup_app_one; [exact H1|]. apply find_None. exact Ef.
+    + intros y mu' v' b' c Hin Hc. apply in_app_or in Hin as [Hin|[Hin|[]]].
+      * specialize (H2 _ _ _ _ _ Hin Hc). lia.
+      * inversion Hin; subst. apply Hnew in Hc. lia.
+    + intros y mu' v' b' Hin. apply in_app_or in Hin as [Hin|[Hin|[]]]; [eapply H3; eassumption|].
+      inversion Hin; subst. exact Hdr.
+    + intros y z mu1 mu2 v1 v2 b1 b2 c Hy Hz Hc1 Hc2.
+      apply in_app_or in Hy as [Hy|[Hy|[]]]; apply in_app_or in Hz as [Hz|[Hz|[]]].
+      * eapply H4; eassumption.
+      * inversion Hz; subst. specialize (H2 _ _ _ _ _ Hy Hc1). apply Hnew in Hc2. lia.
+      * inversion Hy; subst. specialize (H2 _ _ _ _ _ Hz Hc2). apply Hnew in Hc1. lia.
+      * inversion Hy; inversion Hz; subst. reflexivity.
+  - rewrite find_snap_tab. unfold add_name; cbn [names cells]. rewrite Hn, (find_app_new _ _ _ Ef). reflexivity.
+  - intros n Hne. rewrite !find_snap_tab. unfold add_name; cbn [names cells]. rewrite Hn, (find_app_other _ _ _ _ Hne).
+    destruct (find n (names st)) as [[[mu' v'] b']|] eqn:E; [|reflexivity].
+    f_equal. f_equal. eapply snap_ext; [exact Hx|]. intros c Hc. apply find_In in E. eapply inv_lt; eassumption.
+Qed.
+
+(* defining x with a value made of new cells only *)
+Lemma define_fresh_ok st s2 mu x e v b d :
+  Inv st -> grows st s2 -> new_in st s2 (cells_of v) -> deref1 v = v ->
+  find x (names st) = None -> seval (snap_tab st) e = Some d -> snap (cells s2) v = d ->
+  step_ok (snap_tab st) (SDef mu x e) true (snap_tab (add_name x (mu, v, b) s2)) /\
+  Inv (add_name x (mu, v, b) s2).
+Proof.
+  intros HI Hg Hnew Hdr Ef Hse Hsn.
+  destruct (add_fresh_ok st s2 mu x v b HI Hg Hnew Hdr Ef) as [HI' [Hfx Hfr]].
+  split; [|exact HI']. eapply ok_def.
+  - rewrite find_snap_tab, Ef. reflexivity.
+  - exact Hse.
+  - rewrite Hfx, Hsn. reflexivity.
+  - intros n Hnin. apply Hfr. intros ->. apply Hnin. left. reflexivity.
 Qed.
 
 (* the statements of a class-free history *)
@@ -767,41 +817,20 @@ Proof.
     assert (Ex' : (add_name x (mu, detach v, b) s1, true, @None nat) = (s2, ok, w)).
     { destruct e; try exact Ex. cbn in Hs. contradiction. }
     clear Ex. inversion Ex'; subst. clear Ex'.
-    pose proof (eval_expr_grows _ _ _ _ _ Ee) as Hg.
-    destruct (eval_expr_closed (snap_tab st) _ _ _ _ _ Hs Ee) as [Hnew [Hse [Hdt Hdr]]].
-    destruct Hg as [Hn [Hlt Hx]]. rewrite Hdt. split.
-    + eapply ok_def.
-      * rewrite find_snap_tab, Ef. reflexivity.
-      * exact Hse.
-      * rewrite find_snap_tab. unfold add_name; cbn [names cells]. rewrite Hn, (find_app_new _ _ _ Ef). reflexivity.
-      * intros n Hnin. assert (Hne : n <> x) by (intros ->; apply Hnin; left; reflexivity).
-        rewrite !find_snap_tab. unfold add_name; cbn [names cells]. rewrite Hn, (find_app_other _ _ _ _ Hne).
-        destruct (find n (names st)) as [[[mu' v'] b']|] eqn:E; [|reflexivity].
-        f_equal. f_equal. eapply snap_ext; [exact Hx|]. intros c Hc. apply find_In in E. eapply inv_lt; eassumption.
-    + destruct HI as [H1 H2 H3 H4]. unfold add_name. constructor; cbn [names next cells]; rewrite Hn.
-      * unfold keys. rewrite map_app. cbn. apply NoDup_app_one; [exact H1|]. apply find_None. exact Ef.
-      * intros y mu' v' b' c Hin Hc. apply in_app_or in Hin as [Hin|[Hin|[]]].
-        -- specialize (H2 _ _ _ _ _ Hin Hc). lia.
-        -- inversion Hin; subst. apply Hnew in Hc. lia.
-      * intros y mu' v' b' Hin. apply in_app_or in Hin as [Hin|[Hin|[]]]; [eapply H3; eassumption|].
-        inversion Hin; subst. exact Hdr.
-      * intros y z mu1 mu2 v1 v2 b1 b2 c Hy Hz Hc1 Hc2.
-        apply in_app_or in Hy as [Hy|[Hy|[]]]; apply in_app_or in Hz as [Hz|[Hz|[]]].
-        -- eapply H4; eassumption.
-        -- inversion Hz; subst. specialize (H2 _ _ _ _ _ Hy Hc1). apply Hnew in Hc2. lia.
-        -- inversion Hy; subst. specialize (H2 _ _ _ _ _ Hz Hc2). apply Hnew in Hc1. lia.
-        -- inversion Hy; inversion Hz; subst. reflexivity.
-  - pose proof (with_src_ok st (SAssign x e) x e (fun cs sink src => k_assign cs sink src) HI eq_refl k_assign_ok) as H.
+    pose proof (eval_expr_grows cfg_cur eq_refl _ _ _ _ _ Ee) as Hg.
+    destruct (eval_expr_closed cfg_cur eq_refl (snap_tab st) _ _ _ _ _ Hs Ee) as [Hnew [Hse [Hdt Hdr]]].
+    rewrite Hdt. eapply define_fresh_ok; try eassumption. reflexivity.
+  - pose proof (with_src_ok cfg_cur st (SAssign x e) x e (fun cs sink src => k_assign cs sink src) eq_refl HI eq_refl k_assign_ok) as H.
     cbv beta zeta in H. rewrite Ex in H. apply H. exact Hp.
   - pose proof (assign_with_ok st st (SIdx1 x i d) x _ HI (grows_refl st) eq_refl (k_idx_ok (lin1 i) d)) as H.
     rewrite Ex in H. apply H. exact Hp.
   - pose proof (assign_with_ok st st (SIdx2 x i j d) x _ HI (grows_refl st) eq_refl (k_idx_ok (lin2 i j) d)) as H.
     rewrite Ex in H. apply H. exact Hp.
-  - pose proof (with_src_ok st (SOp x o e) x e (fun cs sink src => k_op cs o sink src) HI eq_refl (k_op_ok o)) as H.
+  - pose proof (with_src_ok cfg_cur st (SOp x o e) x e (fun cs sink src => k_op cs o sink src) eq_refl HI eq_refl (k_op_ok o)) as H.
     cbv beta zeta in H. rewrite Ex in H. apply H. exact Hp.
-  - pose proof (with_src_ok st (SField x f e) x e (fun cs sink src => k_field cfg_cur cs sink f src) HI eq_refl (k_field_ok f)) as H.
+  - pose proof (with_src_ok cfg_cur st (SField x f e) x e (fun cs sink src => k_field cfg_cur cs sink f src) eq_refl HI eq_refl (k_field_ok cfg_cur f)) as H.
     cbv beta zeta in H. rewrite Ex in H. apply H. exact Hp.
-  - pose proof (with_src_ok st (STix x k e) x e (fun cs sink src => k_tix cs sink k src) HI eq_refl (k_tix_ok k)) as H.
+  - pose proof (with_src_ok cfg_cur st (STix x k e) x e (fun cs sink src => k_tix cs sink k src) eq_refl HI eq_refl (k_tix_ok k)) as H.
     cbv beta zeta in H. rewrite Ex in H. apply H. exact Hp.
 Qed.
 
@@ -821,3 +850,382 @@ Theorem holds_class_free h :
   Forall safe_stmt h -> no_partial cfg_cur store0 h = true ->
   trace_ok [] (impl_trace cfg_cur store0 h).
 Proof. intros Hs Hp. apply (holds_from store0 h Inv0 Hs Hp). Qed.
+
+(* ================================================================== *)
+(* G. the model of the REPAIRED interpreter (proposed/C05-*.diff)      *)
+(* ================================================================== *)
+Definition cfg_rep : cfg :=
+  {| c_def_copy := true; c_atom_copy := false; c_destr_fixed := true; c_col_checked := true |}.
+
+Definition bounded (n : nat) (v : value) : Prop := forall c, In c (cells_of v) -> c < n.
+
+Lemma grows_bounded st s1 v : grows st s1 -> bounded (next st) v -> bounded (next s1) v.
+Proof. intros [_ [H _]] Hb c Hc. specialize (Hb c Hc). lia. Qed.
+
+Lemma grows_snap st s1 v : grows st s1 -> bounded (next st) v -> snap (cells s1) v = snap (cells st) v.
+Proof. intros [_ [_ H]] Hb. eapply snap_ext; eassumption. Qed.
+
+(* Value::deep_copy: new cells only, same deep value, no reference left *)
+Definition copy_ok (v : value) : Prop := forall st v' st',
+  bounded (next st) v -> copyv st v = (v', st') ->
+  grows st st' /\ new_in st st' (cells_of v') /\ snap (cells st') v' = snap (cells st) v /\ deref1 v' = v'.
+
+Lemma copy_list_ok l : Forall copy_ok l -> forall s0 l' s2,
+  (forall w, In w l -> bounded (next s0) w) -> map_st copyv l s0 = (l', s2) ->
+  grows s0 s2 /\ new_in s0 s2 (flat_map cells_of l') /\ map (snap (cells s2)) l' = map (snap (cells s0)) l.
+Proof.
+  induction l as [|w r IHr]; intros IH s0 l1 s3 Hbs; cbn [map_st].
+  - intros H. inversion H; subst. split; [apply grows_refl|]. split; [intros c []|reflexivity].
+  - inversion IH as [|? ? Hw Hr]; subst.
+    destruct (copyv s0 w) as [w' s1] eqn:Ew. destruct (map_st copyv r s1) as [r' s4] eqn:Er.
+    intros H. inversion H; subst. clear H.
+    destruct (Hw _ _ _ (Hbs w (or_introl eq_refl)) Ew) as [G1 [N1 [S1 _]]].
+    destruct (IHr Hr s1 r' s3) as [G2 [N2 S2]].
+    { intros u Hu. eapply grows_bounded; [exact G1 | apply Hbs; right; exact Hu]. }
+    { exact Er. }
+    split; [eapply grows_trans; eassumption|]. split.
+    + intros c Hc. cbn in Hc. destruct G1 as [_ [L1 _]], G2 as [_ [L2 _]].
+      apply in_app_or in Hc as [Hc|Hc]; [apply N1 in Hc | apply N2 in Hc]; lia.
+    + cbn. f_equal.
+      * rewrite <- S1. apply grows_snap; [exact G2|]. intros c Hc. apply N1 in Hc. lia.
+      * rewrite S2. apply map_ext_in. intros u Hu. apply grows_snap; [exact G1 | apply Hbs; right; exact Hu].
+Qed.
+
+Definition cellsf (p : string * value) : list nat := match p with (_, u) => cells_of u end.
+Definition snapf (cs : list (nat * dv)) (p : string * value) : string * dv := match p with (f, u) => (f, snap cs u) end.
+Definition copyf (s : store) (p : string * value) : (string * value) * store :=
+  match p with (f, w) => let '(w', s1) := copyv s w in ((f, w'), s1) end.
+
+Lemma copy_fields_ok l : Forall (fun p => copy_ok (snd p)) l -> forall s0 l' s2,
+  (forall p, In p l -> bounded (next s0) (snd p)) -> map_st copyf l s0 = (l', s2) ->
+  grows s0 s2 /\ new_in s0 s2 (flat_map cellsf l') /\ map (snapf (cells s2)) l' = map (snapf (cells s0)) l.
+Proof.
+  induction l as [|[f w] r IHr]; intros IH s0 l1 s3 Hbs; cbn [map_st].
+  - intros H. inversion H; subst. split; [apply grows_refl|]. split; [intros c []|reflexivity].
+  - inversion IH as [|? ? Hw Hr]; subst. cbn [snd] in Hw. unfold copyf at 1.
+    destruct (copyv s0 w) as [w' s1] eqn:Ew. destruct (map_st copyf r s1) as [r' s4] eqn:Er.
+    intros H. inversion H; subst. clear H.
+    destruct (Hw _ _ _ (Hbs (f, w) (or_introl eq_refl)) Ew) as [G1 [N1 [S1 _]]].
+    destruct (IHr Hr s1 r' s3) as [G2 [N2 S2]].
+    { intros u Hu. eapply grows_bounded; [exact G1 | apply Hbs; right; exact Hu]. }
+    { exact Er. }
+    split; [eapply grows_trans; eassumption|]. split.
+    + intros c Hc. cbn in Hc. destruct G1 as [_ [L1 _]], G2 as [_ [L2 _]].
+      apply in_app_or in Hc as [Hc|Hc]; [apply N1 in Hc | apply N2 in Hc]; lia.
+    + cbn. f_equal.
+      * f_equal. rewrite <- S1. apply grows_snap; [exact G2|]. intros c Hc. apply N1 in Hc. lia.
+      * rewrite S2. apply map_ext_in. intros [g u] Hu. unfold snapf. f_equal.
+        apply grows_snap; [exact G1 | apply (Hbs (g, u)); right; exact Hu].
+Qed.
+
+Lemma copyv_spec v : copy_ok v.
+Proof.
+  induction v as [c|i l|i l IH|i l IH|v IH] using value_ind'; intros st v' st' Hb; cbn [copyv].
+  - intros H. inversion H; subst. split; [apply (alloc_grows _ st)|].
+    simpl; unfold new_in, get; simpl. rewrite Nat.eqb_refl.
+    split; [intros c0 [<-|[]]; lia|]. split; reflexivity.
+  - intros H. inversion H; subst. split; [apply (fresh_id_grows st)|].
+    simpl; unfold new_in; simpl. split; [intros c0 []|]. split; reflexivity.
+  - unfold fresh_id.
+    destruct (map_st copyv l {| cells := cells st; names := names st; next := S (next st) |}) as [l' s2] eqn:El.
+    intros H. inversion H; subst. clear H.
+    assert (Hbs : forall w, In w l -> bounded (next {| cells := cells st; names := names st; next := S (next st) |}) w).
+    { intros w Hw c Hc. simpl. apply Nat.lt_lt_succ_r. apply Hb. cbn [cells_of]. apply in_flat_map. exists w. split; assumption. }
+    destruct (copy_list_ok l IH _ _ _ Hbs El) as [G [N S]].
+    split; [eapply grows_trans; [apply (fresh_id_grows st) | exact G]|]. split; [|split; [|reflexivity]].
+    + intros c Hc. cbn [cells_of] in Hc. apply N in Hc. simpl in Hc. lia.
+    + cbn [snap]. rewrite S. reflexivity.
+  - unfold fresh_id. fold copyf.
+    destruct (map_st copyf l {| cells := cells st; names := names st; next := S (next st) |}) as [l' s2] eqn:El.
+    intros H. inversion H; subst. clear H.
+    assert (Hbs : forall p, In p l -> bounded (next {| cells := cells st; names := names st; next := S (next st) |}) (snd p)).
+    { intros [g u] Hp c Hc. simpl. apply Nat.lt_lt_succ_r. apply Hb. cbn [cells_of]. apply in_flat_map. exists (g, u). split; [exact Hp | exact Hc]. }
+    destruct (copy_fields_ok l IH _ _ _ Hbs El) as [G [N S]].
+    split; [eapply grows_trans; [apply (fresh_id_grows st) | exact G]|]. split; [|split; [|reflexivity]].
+    + intros c Hc. cbn [cells_of] in Hc. apply N in Hc. simpl in Hc. lia.
+    + cbn [snap]. fold (snapf (cells st')). fold (snapf (cells st)). rewrite S. reflexivity.
+  - intros H. cbn [cells_of snap]. apply IH; assumption.
+Qed.
+
+(* right-hand sides denote, in the model, what they denote on the observable table (any expression) *)
+Definition names_bounded (st : store) : Prop :=
+  forall x mu v b, In (x, (mu, v, b)) (names st) -> bounded (next st) v.
+
+Lemma Inv_names_bounded st : Inv st -> names_bounded st.
+Proof. intros HI x mu v b Hin c Hc. eapply inv_lt; eassumption. Qed.
+
+Lemma find_snap_tab_grows st0 st x :
+  names_bounded st0 -> grows st0 st -> find x (snap_tab st) = find x (snap_tab st0).
+Proof.
+  intros Hnb Hg. rewrite !find_snap_tab. pose proof Hg as [Hn _]. rewrite Hn.
+  destruct (find x (names st0)) as [[[mu v] b]|] eqn:E; [|reflexivity].
+  f_equal. f_equal. apply grows_snap; [exact Hg|]. apply find_In in E. eapply Hnb; eassumption.
+Qed.
+
+Section AnyCfg2.
+  Variable cf : cfg.
+  Hypothesis Hac : c_atom_copy cf = false.
+
+  Lemma eval_atom_snap st0 st a v s1 :
+    names_bounded st0 -> grows st0 st -> eval_atom cf st a = Some (v, s1) ->
+    aeval (snap_tab st0) a = Some (snap (cells s1) v) /\ bounded (next s1) v.
+  Proof.
+    intros Hnb Hg. destruct a as [x|r c d|x]; cbn [eval_atom aeval].
+    - intros H. inversion H; subst. simpl; unfold get, bounded; simpl. rewrite Nat.eqb_refl.
+      split; [reflexivity | intros c0 [<-|[]]; lia].
+    - intros H. inversion H; subst. simpl; unfold get, bounded; simpl. rewrite Nat.eqb_refl.
+      split; [reflexivity | intros c0 [<-|[]]; lia].
+    - destruct (find x (names st)) as [[[mu w] b]|] eqn:E; [|discriminate]. rewrite Hac.
+      intros H. inversion H; subst. pose proof Hg as [Hn [Hlt _]]. rewrite Hn in E.
+      rewrite find_snap_tab, E. cbn [option_map snd snap cells_of].
+      assert (Hb : bounded (next st0) w) by (apply find_In in E; eapply Hnb; eassumption).
+      split; [f_equal; symmetry; apply grows_snap; assumption | eapply grows_bounded; eassumption].
+  Qed.
+
+  Lemma eval_atoms_snap st0 l : forall st vs s1,
+    names_bounded st0 -> grows st0 st -> eval_atoms cf st l = Some (vs, s1) ->
+    map_opt (aeval (snap_tab st0)) l = Some (map (snap (cells s1)) vs) /\
+    (forall w, In w vs -> bounded (next s1) w) /\ List.length vs = List.length l.
+  Proof.
+    induction l as [|a l IH]; intros st vs s1 Hnb Hg; cbn [eval_atoms].
+    - intros H. inversion H; subst. cbn. repeat split. intros w [].
+    - destruct (eval_atom cf st a) as [[v s0]|] eqn:Ea; [|discriminate].
+      destruct (eval_atoms cf s0 l) as [[ws s2]|] eqn:El; [|discriminate].
+      intros H. inversion H; subst.
+      pose proof (eval_atom_grows cf Hac _ _ _ _ Ea) as G1.
+      pose proof (eval_atoms_grows cf Hac _ _ _ _ El) as G2.
+      destruct (eval_atom_snap _ _ _ _ _ Hnb Hg Ea) as [Ha Hb].
+      destruct (IH s0 ws s1 Hnb (grows_trans _ _ _ Hg G1) El) as [Hl [Hbs Hlen]].
+      split; [|split].
+      + cbn. rewrite Ha, Hl. f_equal. f_equal. symmetry. apply grows_snap; assumption.
+      + intros w [<-|Hw]; [eapply grows_bounded; eassumption | apply Hbs; exact Hw].
+      + cbn. lia.
+  Qed.
+
+  Lemma map_opt_fields_gen T (l : list (string * atom)) ds :
+    map_opt (aeval T) (map snd l) = Some ds ->
+    map_opt (fun p => option_map (pair (fst p)) (aeval T (snd p))) l = Some (combine (map fst l) ds).
+  Proof.
+    revert ds. induction l as [|[f a] l IH]; cbn; intros ds.
+    - intros H. inversion H; subst. reflexivity.
+    - destruct (aeval T a) as [d|] eqn:Ea; [|discriminate].
+      destruct (map_opt (aeval T) (map snd l)) as [ds'|] eqn:El; [|discriminate].
+      intros H. inversion H; subst. rewrite (IH ds') by reflexivity. cbn. reflexivity.
+  Qed.
+
+  Lemma eval_expr_snap st e v s1 b :
+    names_bounded st -> eval_expr cf st e = Some (v, s1, b) ->
+    seval (snap_tab st) e = Some (snap (cells s1) v) /\ bounded (next s1) v.
+  Proof.
+    intros Hnb. destruct e as [x|r c d|l|cols|l|l|x]; cbn [eval_expr seval].
+    - intros H. inversion H; subst. simpl; unfold get, bounded; simpl. rewrite Nat.eqb_refl.
+      split; [reflexivity | intros c0 [<-|[]]; lia].
+    - intros H. inversion H; subst. simpl; unfold get, bounded; simpl. rewrite Nat.eqb_refl.
+      split; [reflexivity | intros c0 [<-|[]]; lia].
+    - intros H. inversion H; subst. simpl. split; [reflexivity | intros c0 []].
+    - intros H. inversion H; subst. simpl; unfold get, bounded; simpl. rewrite Nat.eqb_refl.
+      split; [reflexivity | intros c0 [<-|[]]; lia].
+    - cbn. destruct (eval_atoms cf _ l) as [[vs s2]|] eqn:E; [|discriminate].
+      intros H. inversion H; subst.
+      destruct (eval_atoms_snap st l _ _ _ Hnb (fresh_id_grows st) E) as [Hl [Hbs _]].
+      rewrite Hl. cbn [option_map snap]. split; [reflexivity|].
+      intros c Hc. cbn [cells_of] in Hc. apply in_flat_map in Hc as [w [Hw Hc]]. eapply Hbs; eassumption.
+    - cbn. destruct (eval_atoms cf _ (map snd l)) as [[vs s2]|] eqn:E; [|discriminate].
+      intros H. inversion H; subst.
+      destruct (eval_atoms_snap st (map snd l) _ _ _ Hnb (fresh_id_grows st) E) as [Hl [Hbs Hlen]].
+      rewrite map_length in Hlen.
+      rewrite (map_opt_fields_gen _ _ _ Hl). cbn [option_map snap]. split.
+      + f_equal. f_equal. rewrite <- combine_map_snd. apply map_ext. intros [f w]. reflexivity.
+      + intros c Hc. cbn [cells_of] in Hc. rewrite flat_cells_combine in Hc by (rewrite map_length; lia).
+        apply in_flat_map in Hc as [w [Hw Hc]]. eapply Hbs; eassumption.
+    - destruct (find x (names st)) as [[[mu w] b']|] eqn:E; [|discriminate].
+      intros H. inversion H; subst. rewrite find_snap_tab, E. cbn [option_map snd snap cells_of].
+      split; [reflexivity|]. apply find_In in E. exact (Hnb _ _ _ _ E).
+  Qed.
+End AnyCfg2.
+
+Lemma Inv_of_grows st s1 : Inv st -> grows st s1 -> Inv s1.
+Proof.
+  intros [H1 H2 H3 H4] [Hn [Hlt _]]. constructor; rewrite Hn; try assumption.
+  intros x mu v b c Hin Hc. specialize (H2 _ _ _ _ _ Hin Hc). lia.
+Qed.
+
+(* the repaired destructure: every target a fresh, immutable copy of its element *)
+Lemma destr_new_ok xs : forall l s,
+  Inv s -> NoDup xs -> (forall x, In x xs -> find x (names s) = None) -> List.length xs <= List.length l ->
+  (forall w, In w l -> bounded (next s) w) ->
+  Inv (destr_new xs l s) /\
+  (forall n, ~ In n xs -> find n (snap_tab (destr_new xs l s)) = find n (snap_tab s)) /\
+  (forall i x w, nth_error xs i = Some x -> nth_error l i = Some w ->
+     find x (snap_tab (destr_new xs l s)) = Some (false, snap (cells s) w)).
+Proof.
+  induction xs as [|x xr IH]; intros l s HI Hnd Hfr Hlen Hb; cbn [destr_new].
+  - split; [exact HI|]. split; [reflexivity | intros [|i] ? ? H; discriminate].
+  - destruct l as [|w lr]; [cbn in Hlen; lia|].
+    destruct (copyv s w) as [w' s1] eqn:Ec.
+    destruct (copyv_spec w _ _ _ (Hb w (or_introl eq_refl)) Ec) as [G [N [S D]]].
+    inversion Hnd as [|? ? Hx Hnd']; subst.
+    destruct (add_fresh_ok s s1 false x w' BFresh HI G N D (Hfr x (or_introl eq_refl))) as [HI2 [Hfx Hfo]].
+    set (s2 := add_name x (false, w', BFresh) s1) in *.
+    assert (G2 : grows s s1) by exact G.
+    assert (P1 : forall y, In y xr -> find y (names s2) = None).
+    { intros y Hy. unfold s2, add_name; cbn [names]. destruct G as [Hn _]. rewrite Hn.
+      rewrite find_app_other; [apply Hfr; right; exact Hy | intros ->; contradiction]. }
+    assert (P2 : List.length xr <= List.length lr) by (cbn in Hlen; lia).
+    assert (P3 : forall u, In u lr -> bounded (next s2) u).
+    { intros u Hu. unfold s2, add_name; cbn [next]. eapply grows_bounded; [exact G | apply Hb; right; exact Hu]. }
+    destruct (IH lr s2 HI2 Hnd' P1 P2 P3) as [HI' [Hframe Hrows]].
+    split; [exact HI'|]. split.
+    + intros n Hn. rewrite Hframe by (intros Hin; apply Hn; right; exact Hin).
+      apply Hfo. intros ->. apply Hn. left. reflexivity.
+    + intros [|i] y u Hy Hu; cbn in Hy, Hu.
+      * inversion Hy; inversion Hu; subst. rewrite Hframe by exact Hx. rewrite Hfx, S. reflexivity.
+      * rewrite (Hrows i y u Hy Hu). f_equal. f_equal. unfold s2, add_name; cbn [cells].
+        apply grows_snap; [exact G|]. apply Hb. right. eapply nth_error_In; eassumption.
+Qed.
+
+Lemma tuple_elems_snap v l cs :
+  tuple_elems v = Some l -> snap cs v = DTup (map (snap cs) l) /\ (forall n, bounded n v -> forall w, In w l -> bounded n w).
+Proof.
+  destruct v as [c|i l0|i l0|i l0|[c|i l0|i l0|i l0|w0]]; cbn; try discriminate;
+    intros H; inversion H; subst; (split; [reflexivity|]);
+    intros n Hb w Hw c0 Hc; apply Hb; cbn [cells_of]; apply in_flat_map; exists w; split; assumption.
+Qed.
+
+(* no kernel of the repaired interpreter fails after it wrote *)
+Definition never_partial (k : list (nat * dv) -> value -> kres) : Prop :=
+  forall cs sink a cs', k cs sink <> KPartial a cs'.
+
+Lemma assign_with_np st s1 x k : never_partial k -> is_partial (assign_with st s1 x k) = false.
+Proof.
+  intros Hk. unfold assign_with. destruct (target st x) as [sink|]; [|reflexivity].
+  destruct (k (cells s1) sink) as [|a cs'|a cs'] eqn:E; try reflexivity. exfalso. eapply Hk; exact E.
+Qed.
+
+Lemma with_src_np cf st e x k :
+  (forall src, never_partial (fun cs sink => k cs sink src)) ->
+  is_partial (with_src cf st e (fun src s1 => assign_with st s1 x (fun cs sink => k cs sink src))) = false.
+Proof.
+  intros Hk. unfold with_src. destruct (eval_expr cf st e) as [[[src s1] b]|]; [|reflexivity].
+  apply assign_with_np. apply Hk.
+Qed.
+
+Ltac dmg := match goal with |- context [match ?x with _ => _ end] => destruct x eqn:?; try discriminate end.
+
+Lemma k_assign_np src : never_partial (fun cs sink => k_assign cs sink src).
+Proof. intros cs sink a cs'. unfold k_assign. repeat dmg. Qed.
+Lemma k_idx_np lin s : never_partial (fun cs sink => k_idx cs sink lin s).
+Proof. intros cs sink a cs'. unfold k_idx. repeat dmg. Qed.
+Lemma k_op_np o src : never_partial (fun cs sink => k_op cs o sink src).
+Proof. intros cs sink a cs'. unfold k_op. repeat dmg. Qed.
+Lemma k_tix_np k src : never_partial (fun cs sink => k_tix cs sink k src).
+Proof. intros cs sink a cs'. unfold k_tix. repeat dmg. Qed.
+Lemma k_field_np cf f src : c_col_checked cf = true -> never_partial (fun cs sink => k_field cf cs sink f src).
+Proof.
+  intros Hc cs sink a cs'. unfold k_field. rewrite Hc. cbn [andb].
+  repeat dmg.
+Qed.
+
+(* the only histories the repairs do not cover: a definition by a tuple/record literal with a variable in it *)
+Definition no_var_atoms (e : expr) : Prop :=
+  match e with
+  | ETup l => Forall closed_atom l
+  | ERec l => Forall closed_atom (map snd l)
+  | _ => True
+  end.
+Definition rep_safe (s : stmt) : Prop :=
+  match s with SDef _ _ e => no_var_atoms e | _ => True end.
+
+Lemma nth_error_map_inv {A B} (f : A -> B) l i b : nth_error (map f l) i = Some b -> exists a, nth_error l i = Some a /\ b = f a.
+Proof.
+  revert i. induction l as [|a l IH]; intros [|i]; cbn; try discriminate.
+  - intros H. inversion H; subst. eauto.
+  - apply IH.
+Qed.
+
+Lemma exec_rep_ok st s :
+  Inv st -> rep_safe s ->
+  step_ok (snap_tab st) s (snd (exec_st cfg_rep st s)) (snap_tab (fst (exec_st cfg_rep st s))) /\
+  Inv (fst (exec_st cfg_rep st s)).
+Proof.
+  intros HI Hs. unfold exec_st.
+  destruct (exec cfg_rep st s) as [[s2 ok] w] eqn:Ex. cbn [fst snd].
+  pose proof (Inv_names_bounded _ HI) as Hnb.
+  destruct s as [mu x e|x e|x i d|x i j d|x o e|x f e|x k e|xs e]; cbn [exec rep_safe] in *.
+  - (* definition *)
+    destruct (find x (names st)) as [en|] eqn:Ef.
+    { inversion Ex; subst. split; [apply refused_ok | exact HI]. }
+    destruct (eval_expr cfg_rep st e) as [[[v s1] b]|] eqn:Ee.
+    2:{ inversion Ex; subst. split; [apply refused_ok | exact HI]. }
+    pose proof (eval_expr_grows cfg_rep eq_refl _ _ _ _ _ Ee) as Hg.
+    destruct (eval_expr_snap cfg_rep eq_refl _ _ _ _ _ Hnb Ee) as [Hse Hbv].
+    assert (Hclosed : closed_expr e ->
+              step_ok (snap_tab st) (SDef mu x e) ok (snap_tab s2) /\ Inv s2).
+    { intros Hc.
+      destruct (eval_expr_closed cfg_rep eq_refl (snap_tab st) _ _ _ _ _ Hc Ee) as [Hnew [_ [Hdt Hdr]]].
+      assert (Ex' : (add_name x (mu, detach v, b) s1, true, @None nat) = (s2, ok, w)).
+      { destruct e; try exact Ex. cbn in Hc. contradiction. }
+      inversion Ex'; subst. rewrite Hdt.
+      apply (define_fresh_ok st s1 mu x e v b (snap (cells s1) v) HI Hg Hnew Hdr Ef Hse eq_refl). }
+    destruct e as [y|r c d0|l|cols|l|l|y]; try (apply Hclosed; exact Hs).
+    (* y := x : a deep copy *)
+    clear Hclosed. cbn [c_def_copy cfg_rep] in Ex. destruct (copyv s1 v) as [w' s3] eqn:Ec. inversion Ex; subst. clear Ex.
+    destruct (copyv_spec v _ _ _ Hbv Ec) as [G [N [S D]]].
+    apply (define_fresh_ok st s3 mu x (EVar y) w' BFresh (snap (cells s1) v) HI (grows_trans _ _ _ Hg G)); try assumption.
+    intros c Hc. apply N in Hc. destruct Hg as [_ [Hl _]]. lia.
+  - pose proof (with_src_ok cfg_rep st (SAssign x e) x e (fun cs sink src => k_assign cs sink src) eq_refl HI eq_refl k_assign_ok) as H.
+    cbv beta zeta in H. rewrite Ex in H. apply H. rewrite <- Ex. apply (with_src_np cfg_rep st e x (fun cs sink src => k_assign cs sink src) k_assign_np).
+  - pose proof (assign_with_ok st st (SIdx1 x i d) x _ HI (grows_refl st) eq_refl (k_idx_ok (lin1 i) d)) as H.
+    rewrite Ex in H. apply H. rewrite <- Ex. apply assign_with_np. apply k_idx_np.
+  - pose proof (assign_with_ok st st (SIdx2 x i j d) x _ HI (grows_refl st) eq_refl (k_idx_ok (lin2 i j) d)) as H.
+    rewrite Ex in H. apply H. rewrite <- Ex. apply assign_with_np. apply k_idx_np.
+  - pose proof (with_src_ok cfg_rep st (SOp x o e) x e (fun cs sink src => k_op cs o sink src) eq_refl HI eq_refl (k_op_ok o)) as H.
+    cbv beta zeta in H. rewrite Ex in H. apply H. rewrite <- Ex. apply (with_src_np cfg_rep st e x (fun cs sink src => k_op cs o sink src) (k_op_np o)).
+  - pose proof (with_src_ok cfg_rep st (SField x f e) x e (fun cs sink src => k_field cfg_rep cs sink f src) eq_refl HI eq_refl (k_field_ok cfg_rep f)) as H.
+    cbv beta zeta in H. rewrite Ex in H. apply H. rewrite <- Ex.
+    apply (with_src_np cfg_rep st e x (fun cs sink src => k_field cfg_rep cs sink f src) (fun src => k_field_np cfg_rep f src eq_refl)).
+  - pose proof (with_src_ok cfg_rep st (STix x k e) x e (fun cs sink src => k_tix cs sink k src) eq_refl HI eq_refl (k_tix_ok k)) as H.
+    cbv beta zeta in H. rewrite Ex in H. apply H. rewrite <- Ex. apply (with_src_np cfg_rep st e x (fun cs sink src => k_tix cs sink k src) (k_tix_np k)).
+  - (* destructure *)
+    destruct (eval_expr cfg_rep st e) as [[[v s1] b]|] eqn:Ee.
+    2:{ inversion Ex; subst. split; [apply refused_ok | exact HI]. }
+    destruct (tuple_elems v) as [l|] eqn:Et.
+    2:{ inversion Ex; subst. split; [apply refused_ok | exact HI]. }
+    cbn [c_destr_fixed cfg_rep] in Ex.
+    destruct (andb (andb (nodupb xs) (forallb (fun x => match find x (names st) with None => true | Some _ => false end) xs))
+                   (Nat.leb (List.length xs) (List.length l))) eqn:Ech.
+    2:{ inversion Ex; subst. split; [apply refused_ok | exact HI]. }
+    inversion Ex; subst. clear Ex.
+    apply andb_prop in Ech as [Ech Hlen]. apply andb_prop in Ech as [Hnd Hfr].
+    apply nodupb_NoDup in Hnd. apply Nat.leb_le in Hlen.
+    assert (Hfr' : forall x, In x xs -> find x (names st) = None).
+    { intros x Hx. rewrite forallb_forall in Hfr. specialize (Hfr x Hx). destruct (find x (names st)); [discriminate | reflexivity]. }
+    pose proof (eval_expr_grows cfg_rep eq_refl _ _ _ _ _ Ee) as Hg.
+    destruct (eval_expr_snap cfg_rep eq_refl _ _ _ _ _ Hnb Ee) as [Hse Hbv].
+    destruct (tuple_elems_snap v l (cells s1) Et) as [Hsn Hbl].
+    pose proof (Inv_of_grows _ _ HI Hg) as HI1.
+    assert (Hfr1 : forall x, In x xs -> find x (names s1) = None).
+    { intros x Hx. destruct Hg as [Hn _]. rewrite Hn. apply Hfr'. exact Hx. }
+    destruct (destr_new_ok xs l s1 HI1 Hnd Hfr1 Hlen (Hbl _ Hbv)) as [HI' [Hframe Hrows]].
+    split; [|exact HI'].
+    eapply ok_destr with (l := map (snap (cells s1)) l).
+    + rewrite Hse, Hsn. reflexivity.
+    + exact Hnd.
+    + intros x Hx. rewrite find_snap_tab, (Hfr' x Hx). reflexivity.
+    + rewrite map_length. exact Hlen.
+    + intros i x d Hx Hd. apply nth_error_map_inv in Hd as [w0 [Hw ->]]. eapply Hrows; eassumption.
+    + intros n Hn. rewrite (Hframe n Hn). apply find_snap_tab_grows; assumption.
+Qed.
+
+Theorem rep_holds_from st h :
+  Inv st -> Forall rep_safe h -> trace_ok (snap_tab st) (impl_trace cfg_rep st h).
+Proof.
+  revert st. induction h as [|s r IH]; intros st HI Hs; cbn [impl_trace]; [exact I|].
+  inversion Hs; subst.
+  destruct (exec_rep_ok st s HI H1) as [Hstep HI'].
+  destruct (exec_st cfg_rep st s) as [s1 ok] eqn:Ex. cbn [fst snd] in *.
+  split; [exact Hstep | apply IH; assumption].
+Qed.
+
+Theorem repaired_holds h : Forall rep_safe h -> trace_ok [] (impl_trace cfg_rep store0 h).
+Proof. intros Hs. apply (rep_holds_from store0 h Inv0 Hs). Qed.
